@@ -284,8 +284,6 @@ def _run_job(ws, job, r, extra_defines, want_trace):
         cmd += ['--unwindset', '%s.%s:%s' % (m, n, k)]
         # the function under enforcement is renamed by DFCC
         cmd += ['--unwindset', '%s_wrapped_for_contract_checking.%s:%s' % (m, n, k)]
-    if want_trace:
-        cmd += ['--trace']
     r.cmds.append(' '.join(cmd))
     results, out = _cbmc(cmd, job, r)
     # CBMC 6 leaves obligations UNKNOWN once another one on their path has failed (e.g. a canary or a
@@ -310,6 +308,20 @@ def _run_job(ws, job, r, extra_defines, want_trace):
         raise Infra('cbmc: call with missing arguments (nested call inside a spec function under DFCC) - result would be unsound')
     if any('ignoring' in (o.get('messageText') or '') for o in out):
         raise Infra('cbmc ignored a quantifier')
+    # counterexample traces only for the (first few) failing non-canary obligations: --trace on every
+    # failure is what makes a failing run slow
+    if want_trace:
+        bad = [x['property'] for x in results if x['status'] == 'FAILURE' and not x.get('description', '').startswith('canary:')
+               and not FILTER_STRICT.search(x.get('description', ''))][:6]
+        if bad:
+            try:
+                res3, _ = _cbmc(cmd + ['--trace'] + [a for u in bad for a in ('--property', u)], job, r)
+                tr = {x['property']: x.get('trace') for x in res3 if x['status'] == 'FAILURE'}
+                for x in results:
+                    if x['property'] in tr:
+                        x['trace'] = tr[x['property']]
+            except Infra:
+                pass
     canary_seen = {}
     for x in results:
         loc = x.get('sourceLocation') or {}
